@@ -1,6 +1,7 @@
 package keysim
 
 import (
+	"fmt"
 	"strings"
 
 	"verifsim/core"
@@ -30,7 +31,10 @@ func (Engine) Plan(property, tier string) core.Plan {
 	return p
 }
 
-var passes = []string{"", "pw", "пароль✓", strings.Repeat("x", 300), "other"}
+// passphrases: empty, ascii, unicode, long ones that differ only far into the string (in bytes: beyond 72, 128, 256),
+// one that is a prefix of another
+var passes = []string{"", "pw", "пароль✓", strings.Repeat("x", 300), "other", strings.Repeat("x", 299) + "y", strings.Repeat("x", 128) + "A",
+	strings.Repeat("x", 128), strings.Repeat("й", 70) + "1", strings.Repeat("й", 70) + "2", "pw ", strings.Repeat("q", 72) + "1", strings.Repeat("q", 72) + "2"}
 
 func Generate(property, tier string, seed uint64) *Trace {
 	r := core.NewRng(seed)
@@ -91,7 +95,14 @@ func Generate(property, tier string, seed uint64) *Trace {
 				p = pick()
 			}
 			ep := pick()
-			tr.Steps = append(tr.Steps, Step{Op: "export_armor", Slot: s, Slot2: armorSlot, Pass: p, Pass2: ep})
+			if r.Chance(0.3) {
+				ep = p // re-export under the passphrase offered for decryption (right or wrong)
+			}
+			hint := "hint"
+			if r.Chance(0.5) {
+				hint = ""
+			}
+			tr.Steps = append(tr.Steps, Step{Op: "export_armor", Slot: s, Slot2: armorSlot, Pass: p, Pass2: ep, Hint: hint})
 			ip := ep
 			if r.Chance(0.35) {
 				ip = pick()
@@ -146,10 +157,10 @@ func (Engine) Sample(trace []byte) interface{} {
 	c := tr.Clone()
 	for i := range c.Steps {
 		if len(c.Steps[i].Pass) > 20 {
-			c.Steps[i].Pass = c.Steps[i].Pass[:5] + "...(300)"
+			c.Steps[i].Pass = fmt.Sprintf("%s...%s(%d bytes)", c.Steps[i].Pass[:4], c.Steps[i].Pass[len(c.Steps[i].Pass)-1:], len(c.Steps[i].Pass))
 		}
 		if len(c.Steps[i].Pass2) > 20 {
-			c.Steps[i].Pass2 = c.Steps[i].Pass2[:5] + "...(300)"
+			c.Steps[i].Pass2 = fmt.Sprintf("%s...%s(%d bytes)", c.Steps[i].Pass2[:4], c.Steps[i].Pass2[len(c.Steps[i].Pass2)-1:], len(c.Steps[i].Pass2))
 		}
 	}
 	return c.Steps
